@@ -115,6 +115,33 @@ fn forms(ctx: &mut Ctx, env: &Env, rng: &mut Rng, base: &Engine, descr: &str) {
             }
         }
     }
+    // the same with alignment ON (no time stamps anywhere): every form still agrees, at any speed
+    {
+        let mut ea = e.clone();
+        ea.condition.set_phoneme_alignment_flag(true);
+        ea.condition.set_speed(*rng.pick(&[1.0, 0.8, 1.7]));
+        if let Ok(refa) = ea.synthesize(labels.clone()) {
+            let outs_a: Vec<(&str, Result<Vec<f64>, String>)> = vec![
+                ("&[String], alignment on", ea.synthesize(&strings[..]).map_err(|e| format!("{}", e))),
+                ("Vec<String>, alignment on", ea.synthesize(strings.clone()).map_err(|e| format!("{}", e))),
+            ];
+            for (name, r) in outs_a {
+                match r {
+                    Ok(w) => {
+                        ctx.count("forms_compared", 1.0);
+                        if !same(&w, &refa) {
+                            ctx.violation("input-forms-disagree", d(J::obj().set("form", name).set("len", w.len()).set("reference_len", refa.len()).set("speed", ea.condition.get_speed())));
+                            return;
+                        }
+                    }
+                    Err(er) => {
+                        ctx.violation("wellformed-input-form-rejected", d(J::obj().set("form", name).set("err", er)));
+                        return;
+                    }
+                }
+            }
+        }
+    }
     ctx.nontrivial(mix(&[hash_str(descr), hash_str(&strings.join("|")), hash_str(&format!("{}", cond.to_json()))]));
     if ctx.want_sample() {
         ctx.sample(d(J::obj().set("samples", reference.len()).set("forms", 6)));
@@ -254,6 +281,32 @@ pub fn run(ctx: &mut Ctx) {
         let mut e = if idx % 50 == 0 { bundled.clone() } else { tiny.clone() };
         e.condition.set_phoneme_alignment_flag(idx % 4 == 0);
         let r = guard(|| e.synthesize(lines.clone()));
+        // the documented line format decides whether the input is well-formed:
+        //   ""                      blank, skipped
+        //   "<label>"               no space
+        //   "<start> <end> <label>" two numbers, then the label (which may contain spaces)
+        // anything else (one space, unparsable number, unparsable label) must be an error
+        let expect_ok = lines.iter().all(|l| {
+            if l.is_empty() {
+                return true;
+            }
+            let mut it = l.splitn(3, ' ');
+            let a = it.next().unwrap_or("");
+            match (it.next(), it.next()) {
+                (None, _) => a.parse::<Label>().is_ok(),
+                (Some(_), None) => false,
+                (Some(b), Some(c)) => a.parse::<f64>().is_ok() && b.parse::<f64>().is_ok() && c.parse::<Label>().is_ok(),
+            }
+        });
+        if let Ok(res) = &r {
+            if res.is_ok() != expect_ok {
+                ctx.violation(
+                    if expect_ok { "wellformed-lines-rejected" } else { "malformed-line-accepted" },
+                    J::obj().set("kind", kind).set("lines", J::Arr(lines.iter().map(|l| J::Str(l.chars().take(300).collect())).collect())).set("result_is_ok", res.is_ok()),
+                );
+                return;
+            }
+        }
         match r {
             Err(p) => {
                 if p.in_target() {
